@@ -798,6 +798,15 @@ def overrun_evidence(prog, s, ctx):
         if (l == I and r == size and op in ('<=', '==')) or (l == size and r == I and op in ('>=', '==')):
             if not lt_proved(facts, I, size):
                 return 'the index is only bounded by %s %s %s: it can equal the size' % (l, op, r)
+    # E6: the last element is read under a guard that does not exclude the empty container (size >= 0, size != -1 ...)
+    try:
+        ipoly = P.poly(f, s.idx_node, R)
+        if P.equal(ipoly, P.add({(size,): 1}, P.const(-1))) and not nonempty_proved(facts, size, 1):
+            for l, op, r, _ in facts:
+                if l == size and ((op == '>=' and r == '0') or (op == '>' and r.startswith('-'))):
+                    return 'the only test before reading the last element is %s %s %s, which an empty container passes: element SIZE_MAX is read' % (l, op, r)
+    except Exception:
+        pass
     # E5: the container was padded up to one bound and is indexed below another
     pads = padded_to(prog, f, R, C, s.nid)
     if pads:
